@@ -52,6 +52,7 @@ type C03Tx struct {
 	Prices, Units fees.Dimensions
 	UnitsErr      bool // the op line says `err`: Transaction.Units fails
 	Sponsor       codec.Address
+	Actor         codec.Address // Auth.Actor(); zero value = same as the sponsor
 	Now, TS       int64
 	MaxFee        uint64
 	WrongChain    bool
@@ -76,15 +77,19 @@ func (t *C03Tx) Build(env *Env) (*chain.Transaction, error) {
 	if t.WrongChain {
 		base.ChainID[0] ^= 0xff
 	}
-	auth := &chaintest.TestAuth{NumComputeUnits: 1, ActorAddress: t.Sponsor, SponsorAddress: t.Sponsor, ShouldErr: t.BadAuth, Start: t.AuthS, End: t.AuthE}
+	actor := t.Actor
+	if actor == (codec.Address{}) {
+		actor = t.Sponsor
+	}
+	auth := &chaintest.TestAuth{NumComputeUnits: 1, ActorAddress: actor, SponsorAddress: t.Sponsor, ShouldErr: t.BadAuth, Start: t.AuthS, End: t.AuthE}
 	return chain.NewTransaction(base, acts, auth)
 }
 
 func ParseC03Tx(f []string) (*C03Tx, error) {
-	if len(f) != 11 || f[0] != "tx" {
+	if len(f) != 12 || f[0] != "tx" {
 		return nil, fmt.Errorf("bad tx line")
 	}
-	t := &C03Tx{ActionsRaw: f[10]}
+	t := &C03Tx{ActionsRaw: f[11]}
 	var err error
 	if t.Prices, err = ParseDims(f[1]); err != nil {
 		return nil, err
@@ -97,23 +102,26 @@ func ParseC03Tx(f []string) (*C03Tx, error) {
 	if t.Sponsor, err = ParseAddr(f[3]); err != nil {
 		return nil, err
 	}
-	if t.Now, err = strconv.ParseInt(f[4], 10, 64); err != nil {
+	if t.Actor, err = ParseAddr(f[4]); err != nil {
 		return nil, err
 	}
-	if t.TS, err = strconv.ParseInt(f[5], 10, 64); err != nil {
+	if t.Now, err = strconv.ParseInt(f[5], 10, 64); err != nil {
 		return nil, err
 	}
-	if t.MaxFee, err = strconv.ParseUint(f[6], 10, 64); err != nil {
+	if t.TS, err = strconv.ParseInt(f[6], 10, 64); err != nil {
 		return nil, err
 	}
-	switch f[7] {
+	if t.MaxFee, err = strconv.ParseUint(f[7], 10, 64); err != nil {
+		return nil, err
+	}
+	switch f[8] {
 	case "0":
 	case "1":
 		t.WrongChain = true
 	default:
 		return nil, fmt.Errorf("bad cid")
 	}
-	se := strings.Split(f[8], ":")
+	se := strings.Split(f[9], ":")
 	if len(se) != 2 {
 		return nil, fmt.Errorf("bad auth range")
 	}
@@ -123,11 +131,11 @@ func ParseC03Tx(f []string) (*C03Tx, error) {
 	if t.AuthE, err = strconv.ParseInt(se[1], 10, 64); err != nil {
 		return nil, err
 	}
-	if t.Scope, err = ParseScope(f[9]); err != nil {
+	if t.Scope, err = ParseScope(f[10]); err != nil {
 		return nil, err
 	}
-	if f[10] != "none" {
-		for _, as := range strings.Split(f[10], "|") {
+	if f[11] != "none" {
+		for _, as := range strings.Split(f[11], "|") {
 			a, err := ParseScriptAction(as)
 			if err != nil {
 				return nil, err
@@ -187,8 +195,12 @@ func (t *C03Tx) Line() string {
 	if t.UnitsErr {
 		us = "err"
 	}
-	return fmt.Sprintf("tx %s %s %s %d %d %d %s %d:%d %s %s", DimsString(t.Prices), us,
-		verifh.Hex(t.Sponsor[:]), t.Now, t.TS, t.MaxFee, cid, t.AuthS, t.AuthE, scopeString(t.Scope), t.ActionsRaw)
+	actor := t.Actor
+	if actor == (codec.Address{}) {
+		actor = t.Sponsor
+	}
+	return fmt.Sprintf("tx %s %s %s %s %d %d %d %s %d:%d %s %s", DimsString(t.Prices), us,
+		verifh.Hex(t.Sponsor[:]), verifh.Hex(actor[:]), t.Now, t.TS, t.MaxFee, cid, t.AuthS, t.AuthE, scopeString(t.Scope), t.ActionsRaw)
 }
 
 // ---------------------------------------------------------------- generator
@@ -282,6 +294,13 @@ func (g *c03gen) tx() *C03Tx {
 	t := &C03Tx{Sponsor: Addr(1), Now: C03Now, TS: C03Now + 30_000, AuthS: -1, AuthE: -1, Scope: state.Keys{}}
 	if rng.Chance(15) {
 		t.Sponsor = Addr(2)
+	}
+	t.Actor = t.Sponsor
+	if rng.Chance(35) { // fee delegation: the signer (actor) is not the account that pays (sponsor)
+		t.Actor = Addr(1)
+		if t.Sponsor == Addr(1) {
+			t.Actor = Addr(2)
+		}
 	}
 	t.MaxFee = rng.Pick64()
 	// prices
@@ -483,7 +502,7 @@ func (g *c03gen) corpus() []string {
 	sk := verifh.Hex(g.sk[0])
 	k1 := verifh.Hex(scriptKeys[0])
 	mk := func(prices fees.Dimensions, scope, acts string) string {
-		l := fmt.Sprintf("tx %s 0,0,0,0,0 %s %d %d 0 0 -1:-1 %s %s", DimsString(prices), s1, C03Now, C03Now+30000, scope, acts)
+		l := fmt.Sprintf("tx %s 0,0,0,0,0 %s %s %d %d 0 0 -1:-1 %s %s", DimsString(prices), s1, s1, C03Now, C03Now+30000, scope, acts)
 		pt, err := ParseC03Tx(verifh.Fields(l))
 		if err != nil {
 			panic(err)
@@ -649,6 +668,26 @@ func RunC03(r *verifh.Run, bh chain.BalanceHandler, tag string) {
 		}
 		if res.Units != realUnits {
 			r.Violation("result-units", "Result.Units=%v tx.Units=%v", res.Units, realUnits)
+		}
+		// the SPONSOR pays; an actor that is a different account is not charged
+		if t.Actor != (codec.Address{}) && t.Actor != t.Sponsor {
+			ak := BalanceKeyOf(bh, t.Actor)
+			touched := false
+			for _, a := range t.Actions {
+				for _, st := range a.Steps {
+					if st.Kind != 'r' && bytes.Equal(st.Key, ak) || st.Kind != 'r' && bytes.Equal(st.Key, sk) {
+						touched = true
+					}
+				}
+			}
+			sPre, ok1 := balanceIn(pre, sk)
+			sPost, ok2 := balanceIn(post, sk)
+			aPre, ok3 := balanceIn(pre, ak)
+			aPost, ok4 := balanceIn(post, ak)
+			if !touched && ok1 && ok2 && ok3 && ok4 && fee.Sign() > 0 &&
+				(aPre.Cmp(aPost) != 0 || new(big.Int).Sub(sPre, sPost).Cmp(fee) != 0) {
+				r.Violation("fee-charged-to-non-sponsor", "sponsor balance %s -> %s, actor balance %s -> %s, fee %s: the sponsor must pay exactly the fee and the actor nothing", sPre, sPost, aPre, aPost, fee)
+			}
 		}
 		preBal, okPre := balanceIn(pre, sk)
 		if !okPre || preBal.Cmp(fee) < 0 {
